@@ -107,6 +107,7 @@ def install_static():
         self._sim_serial = s_serial[0]
         orig_sinit(self, *a, **k)
     ccl.Session.__init__ = _sess_init
+    ccl.Session._sim_serial_counter = s_serial
     ccl.Session.__hash__ = lambda self: self.__dict__.get('_sim_serial', 0)
     for cls in (ccl._Scheduler, cconn.ConnectionHeartbeat):
         if cls.__bases__ != (SimThread,):
@@ -122,6 +123,7 @@ def install_run(sim, net):
     lr._global_loop = None
     lr.LibevConnection._socket_impl = net.module()
     M['cconn'].Connection._sim_serial_counter[0] = 0
+    M['ccl'].Session._sim_serial_counter[0] = 0      # sessions live in a WeakSet: their hash decides its iteration order
     POOL_CONN_KNOBS.clear()
     del ALL_CONNS[:]
     executor.SimFuture._serial[0] = 0
